@@ -19,6 +19,9 @@ pub fn build<const K: usize>(ops: &[Value]) -> AffTree<K> {
             "remove_child" => {
                 t.as_mut().unwrap().tree.remove_child(us(&o["p"]), us(&o["l"]));
             }
+            "remove_desc" => {
+                t.as_mut().unwrap().tree.remove_all_descendants(us(&o["p"])).expect("script remove_desc");
+            }
             other => panic!("unknown build op {}", other),
         }
     }
